@@ -12,6 +12,7 @@
  */
 
 #include "cppConstType.h"
+#include "cppArrayType.h"
 
 /**
  *
@@ -204,6 +205,16 @@ void CPPConstType::
 output_instance(std::ostream &out, int indent_level, CPPScope *scope,
                 bool complete, const std::string &prename,
                 const std::string &name) const {
+  CPPArrayType *array_type = _wrapped_around->as_array_type();
+  if (array_type != nullptr) {
+    // A const array is an array of const elements, and has to be written
+    // with the qualifier on the element type.
+    CPPConstType element_type(array_type->_element_type);
+    CPPArrayType(&element_type, array_type->_bounds)
+      .output_instance(out, indent_level, scope, complete, prename, name);
+    return;
+  }
+
   _wrapped_around->output_instance(out, indent_level, scope, complete,
                                    "const " + prename, name);
 }
